@@ -788,6 +788,16 @@ func (r *realizer) Realize(ctx context.Context, ls []*claircore.Layer) error {
 	ds := wart.LayersToDescriptions(ls)
 	ret := make([]claircore.Layer, len(ds))
 	for i := range ds {
+		// like a real fetcher, this one depends on what the description says
+		r.w.mu.Lock()
+		n, known := r.w.layerNo[ds[i].Digest]
+		r.w.mu.Unlock()
+		if !known || ds[i].URI != "mem://layer/"+strconv.Itoa(n) || len(ds[i].Headers["X-Layer"]) != 1 || ds[i].Headers["X-Layer"][0] != strconv.Itoa(n) || ds[i].MediaType == "" {
+			r.w.mu.Lock()
+			r.w.failed = true
+			r.w.mu.Unlock()
+			return fmt.Errorf("stub fetcher: cannot fetch layer %s from %q (headers %v)", ds[i].Digest, ds[i].URI, ds[i].Headers)
+		}
 		if ierr := ret[i].Init(ctx, &ds[i], bytes.NewReader(layerTar)); ierr != nil {
 			return ierr
 		}
@@ -1184,7 +1194,7 @@ func (w *World) Index(layers []int, script Script, dead bool) Result {
 	for _, n := range layers {
 		d := LayerDigest(n)
 		w.layerNo[d.String()] = n
-		m.Layers = append(m.Layers, &claircore.Layer{Hash: d, URI: "mem://layer/" + strconv.Itoa(n)})
+		m.Layers = append(m.Layers, &claircore.Layer{Hash: d, URI: "mem://layer/" + strconv.Itoa(n), Headers: map[string][]string{"X-Layer": {strconv.Itoa(n)}}})
 	}
 	ctx, cancel := context.WithCancel(context.Background())
 	defer cancel()
